@@ -234,7 +234,7 @@ def main(ck):
                               "Go harness cmd/c13 (generator, reference map, canonicaliser), python driver props/C13/run.py (signatures)",
                               "the HTTP/JSON surface of ts-server"]
     ck.coq_audit(["C13", "C10"])
-    ok = ck.coq_build(["C13/Proofs.vo", "C13/Corr.vo", "C13/Props.vo", "C13/Refuted.vo"])
+    ok = ck.coq_build(["C13/Proofs.vo", "C13/TreeProofs.vo", "C13/Wiring.vo", "C13/Purge.vo", "C13/Corr.vo", "C13/Props.vo", "C13/Refuted.vo"])
     if ok:
         ck.coq_props(["C13/Props.v", "C13/Refuted.v"])
     binp = ck.go_build("./cmd/c13", "c13")
